@@ -77,6 +77,10 @@ func projects(tier string) []project {
 	sig, _ := fam.Signature("quick")
 	typ, _, _ := fam.Types("quick")
 	lay := c01.Cases("quick")
+	layAll := c01.AllCases("quick")
+	otherFile := func(c scen.Case) bool {
+		return strings.Contains(c.Features["deviations"], "method-in-other-file") || strings.Contains(c.Features["deviations"], "nested-package")
+	}
 	val := fam.Validators("quick")
 	sec := fam.Security()
 	fa := func(name string) func(scen.Case) bool {
@@ -92,7 +96,7 @@ func projects(tier string) []project {
 			}, 8)...),
 			pick(sig.Cases, fa("sig-3param"), 10)...)},
 		{Name: "types: graphs without mutual recursion, leaves, cross-package", Cases: append(append(pick(typ.Cases, func(c scen.Case) bool { return c.Features["family"] == "type-graph" && c.Features["mutual"] == "false" }, 24), pick(typ.Cases, fa("type-leaf"), 14)...), pick(typ.Cases, fa("type-cross-package"), 1)...)},
-		{Name: "layout and security: prefixes, verbs, hidden, security shapes (with route-conflict warnings)", Cases: append(pick(lay, func(c scen.Case) bool { return c.Features["prefix"] == "/§/a" }, 20), pick(sec.Cases, func(scen.Case) bool { return true }, 12)...)},
+		{Name: "layout and security: prefixes, verbs, hidden, security shapes (with route-conflict warnings), controllers whose methods live in other files", Cases: append(append(pick(lay, func(c scen.Case) bool { return c.Features["prefix"] == "/§/a" }, 20), pick(sec.Cases, func(scen.Case) bool { return true }, 12)...), pick(layAll, otherFile, 6)...)},
 	}
 	ps = append(ps, project{Name: "partially globbed packages: every package also holds a controller file outside controllerGlobs",
 		Cases: append(pick(lay, func(c scen.Case) bool { return c.Features["prefix"] == "/§" && c.Features["hidden"] == "false" }, 8), pick(sig.Cases, fa("sig-return"), 6)...), Patch: partialGlobs})
